@@ -5,13 +5,14 @@ import "io"
 // vChunkReader delivers data in arbitrary pieces: every Read returns between 1 and min(len(p), remaining) bytes.
 // With whole=true it delivers as much as fits (the "all at once" delivery used as the reference run).
 type vChunkReader struct {
-	data  []byte
-	pos   int
-	whole bool
-	reads int
-	cuts  int   // >0: after this many arbitrary pieces the rest arrives as fast as the caller reads it
-	each  int   // >0: every read returns at most this many bytes (a fixed piece size)
-	sizes []int // non-empty: the k-th read returns at most sizes[k] bytes (one message per read), later reads whatever fits
+	data   []byte
+	pos    int
+	whole  bool
+	reads  int
+	cuts   int   // >0: after this many arbitrary pieces the rest arrives as fast as the caller reads it
+	each   int   // >0: every read returns at most this many bytes (a fixed piece size)
+	bounds []int // a read never crosses one of these absolute stream offsets (segment boundaries placed by the harness)
+	sizes  []int // non-empty: the k-th read returns at most sizes[k] bytes (one message per read), later reads whatever fits
 }
 
 func (r *vChunkReader) Read(p []byte) (int, error) {
@@ -26,10 +27,15 @@ func (r *vChunkReader) Read(p []byte) (int, error) {
 	if r.reads < len(r.sizes) {
 		n = vMin(max, r.sizes[r.reads])
 	} else if r.each > 0 {
-		n = vMin(max, r.each)
+		n = vMin(max, r.each-r.pos%r.each)
 	} else if !r.whole && (r.cuts == 0 || r.reads < r.cuts) {
 		n = int(vU8("chunk"))
 		vAssume(1 <= n && n <= max)
+	}
+	for _, b := range r.bounds {
+		if b > r.pos && b < r.pos+n {
+			n = b - r.pos
+		}
 	}
 	copy(p, r.data[r.pos:r.pos+n])
 	r.pos += n
